@@ -912,7 +912,9 @@ pub fn compute(file: &File, r: &Rendered) -> Out {
                             } else if matches!(vis, Some("public") | Some("external")) {
                                 w.must("payable_function", &[t], &cell, c.kind);
                             } else {
-                                w.dc("payable_function", &[t], &cell, c.kind);
+                                // no visibility keyword: not a function *declared* public or external (C06: the verdict
+                                // depends only on the declaration, not on what a compiler version would default to)
+                                w.not("payable_function", t, &cell, c.kind);
                             }
                         }
                         FnKind::Modifier => w.not("payable_function", t, &cell, c.kind),
